@@ -7,6 +7,7 @@ import (
 	"github.com/aperturerobotics/util/ccontainer"
 	"pgregory.net/rapid"
 	"verif/harness/ev"
+	"verif/harness/sched"
 )
 
 // vtMsg is a message type in the style of generated VT code: EqualVT tolerates nil
@@ -163,6 +164,10 @@ func TestC15VT(t *testing.T) {
 		Prop: P, ReplayRuns: 1,
 		Rule: "one container built by NewCContainerVT over a message type whose EqualVT tolerates nil (content equality mod 4); 1..12 sequential SetValue/SwapValue/GetValue calls with nil, fresh or the held message, and WaitValue/WaitValueEmpty/WaitValueChange probes with an already cancelled context; sequential model under the documented VT equality (nil never equals a message); non-trivial iff nil met a message that reads like the empty one; distinct by input",
 		Gen:  genVT,
-		Run:  runVT,
+		Run: func(t *testing.T, cs VTCase) *ev.Verdict {
+			var v *ev.Verdict
+			sched.Guard(func() { v = runVT(t, cs) })
+			return v
+		},
 	})
 }
